@@ -611,7 +611,7 @@ class Unit:
             if ln.startswith("//@insert"):
                 m = re.match(r"//@insert\s+(before|after|inv)\s+`(.*)`\s*$", ln)
                 if not m:
-                    m = re.match(r"//@insert\s+(tail|start)()\s*$", ln)
+                    m = re.match(r"//@insert\s+(tail|start|end)()\s*$", ln)
                 if not m:
                     raise AnchorLost("%s:%d: bad //@insert" % (self.vc_path, lno))
                 body = []
@@ -714,6 +714,12 @@ class Unit:
                     self.dropped.append("fn %s: R6 call `%s` replaced by `%s`" % (path, re.sub(r"\s+", " ", new_body[a:e])[:200], repl))
                     new_body = new_body[:a] + repl + new_body[e:]
                     self.counts.add("R6.call-replaced `%s`" % anchor)
+                    continue
+                if mode == "end":
+                    text = "\n".join(x[1] for x in ins)
+                    cb = new_body.rindex("}")
+                    new_body = new_body[:cb] + "\n/*@ghost-begin %d*/\n%s\n/*@ghost-end*/\n" % (lno, text) + new_body[cb:]
+                    self.counts.add("ghost-insertions")
                     continue
                 if mode == "start":
                     text = "\n".join(x[1] for x in ins)
